@@ -276,10 +276,16 @@ def engine_ksched(pid, tier, seed, res, max_n=None):
                     a_["resource"] = "thread"
                 a_["is_sequential"] = False
             variants.append(v3)
+        bad_w = 0
         for cse in variants:
+            if bad_w >= 3:
+                break  # runs hang / cannot be driven: reported already, do not spend one watchdog period per extra schedule
             for _ in range(25):
+                if bad_w >= 3:
+                    break
                 rec = ksched.run_case(cse, sched_seed=rng.random(), simultaneous=rng.choice([0.5, 0.8, 1.0]))
                 tried += 1
+                bad_w += sum(1 for run_ in rec["runs"] if run_["broken"] or run_["status"] == "hang")
                 for ri, run in enumerate(rec["runs"]):
                     base = dict(engine="ksched", case=cse, sched_seed=rec["sched_seed"], run_index=ri, choices=[x["choices"] for x in rec["runs"][:ri + 1]])
                     if run["status"] == "hang" or (run["broken"] and "spin" in run["broken"]):
